@@ -79,7 +79,7 @@ func init() {
 			rec.Terms = append(rec.Terms, bs[i])
 		}
 		p.nondet = append(p.nondet, rec)
-		return Str{bs}
+		return Str{b: bs}
 	}
 	vIntrinsics["vAssume"] = func(in *Interp, fr *frame, args []Value) Value {
 		c := args[0].(*Term)
